@@ -215,6 +215,8 @@ end PtLazy
 
 namespace PtLazy
 
+variable {ts : List Nat}
+
 /-! ## reachable control states of one group, by closure -/
 
 def GS.norm (s : GS) : GS := { s with trace := [] }
@@ -228,23 +230,23 @@ def okU : Res Unit → Bool
 
 /-- control successors: the forced load (when something is pending) and every init of the group
     on every table; the flag says the step succeeded (and, for the forced load, left nothing pending) -/
-def succs (g : GroupCfg) (c : GS) : List (GS × Bool) :=
+def succs (ts : List Nat) (g : GroupCfg) (c : GS) : List (GS × Bool) :=
   (if c.noPending then [] else
     [((forceAt g forceFuel c).1.norm,
       okU (forceAt g forceFuel c).2 && (forceAt g forceFuel c).1.noPending)]) ++
-  g.inits.flatMap fun mi => tables3.map fun t =>
+  g.inits.flatMap fun mi => ts.map fun t =>
     ((runInit g fuel0 c mi.1 t).1.norm, okU (runInit g fuel0 c mi.1 t).2)
 
-def expand (g : GroupCfg) (R : List GS) : List GS :=
-  R.foldl (fun acc c => (succs g c).foldl (fun a x => if a.contains x.1 then a else a ++ [x.1]) acc) R
+def expand (ts : List Nat) (g : GroupCfg) (R : List GS) : List GS :=
+  R.foldl (fun acc c => (succs ts g c).foldl (fun a x => if a.contains x.1 then a else a ++ [x.1]) acc) R
 
-def reach (g : GroupCfg) : List GS :=
-  expand g (expand g (expand g (expand g (expand g (expand g [g.initGS])))))
+def reach (ts : List Nat) (g : GroupCfg) : List GS :=
+  expand ts g (expand ts g (expand ts g (expand ts g (expand ts g (expand ts g [g.initGS])))))
 
 /-- R contains the initial state and is closed under every successful control step -/
-def closed (g : GroupCfg) (R : List GS) : Bool :=
+def closed (ts : List Nat) (g : GroupCfg) (R : List GS) : Bool :=
   R.contains g.initGS && R.all fun c =>
-    c.trace.isEmpty && (succs g c).all fun x => x.2 && R.contains x.1
+    c.trace.isEmpty && (succs ts g c).all fun x => x.2 && R.contains x.1
 
 theorem okU_eq {r : Res Unit} (h : okU r = true) : r = .ok () := by
   cases r with
@@ -252,7 +254,7 @@ theorem okU_eq {r : Res Unit} (h : okU r = true) : r = .ok () := by
   | _ => cases h
 
 section closedFacts
-variable {g : GroupCfg} {R : List GS} (hcl : closed g R = true)
+variable {g : GroupCfg} {R : List GS} (hcl : closed ts g R = true)
 include hcl
 
 theorem closed_init : g.initGS ∈ R := by
@@ -261,7 +263,7 @@ theorem closed_init : g.initGS ∈ R := by
   exact List.contains_iff_mem.mp hcl.1
 
 theorem closed_at {c : GS} (hc : c ∈ R) :
-    c.trace = [] ∧ ∀ x ∈ succs g c, x.2 = true ∧ x.1 ∈ R := by
+    c.trace = [] ∧ ∀ x ∈ succs ts g c, x.2 = true ∧ x.1 ∈ R := by
   unfold closed at hcl
   simp only [Bool.and_eq_true, List.all_eq_true] at hcl
   have := hcl.2 c hc
@@ -284,7 +286,7 @@ theorem closed_force {c : GS} (hc : c ∈ R) (hp : c.noPending = false) :
   rw [← this]
 
 theorem closed_runInit {c : GS} (hc : c ∈ R) {m : Nat} {es : List Eff} (hm : (m, es) ∈ g.inits)
-    {t : Nat} (ht : t ∈ tables3) :
+    {t : Nat} (ht : t ∈ ts) :
     ∃ c', runInit g fuel0 c m t = (c', .ok ()) ∧ c'.norm ∈ R := by
   have h := (closed_at hcl hc).2 ((runInit g fuel0 c m t).1.norm, okU (runInit g fuel0 c m t).2) (by
     unfold succs
@@ -296,15 +298,15 @@ theorem closed_runInit {c : GS} (hc : c ∈ R) {m : Nat} {es : List Eff} (hm : (
 end closedFacts
 
 /-- events of one group that the theorems range over: tables 0..2, inits of the group -/
-def GEvent.ok3 (g : GroupCfg) : GEvent → Prop
-  | .init m t => t ∈ tables3 ∧ ∃ es, (m, es) ∈ g.inits
+def GEvent.ok3 (ts : List Nat) (g : GroupCfg) : GEvent → Prop
+  | .init m t => t ∈ ts ∧ ∃ es, (m, es) ∈ g.inits
   | _ => True
 
 /-- **control closure**: from a state of R every event of the group – whatever atom, route, user
     values – leads to a state of R -/
 theorem gstep_closed {g : GroupCfg} (hget : g.getter = [.clear, .load, .get])
-    (hset : g.setter = [.clear, .load, .set]) {R : List GS} (hcl : closed g R = true)
-    {c : GS} (hc : c ∈ R) (orc : Orc) (ev : GEvent) (hev : ev.ok3 g) :
+    (hset : g.setter = [.clear, .load, .set]) {R : List GS} (hcl : closed ts g R = true)
+    {c : GS} (hc : c ∈ R) (orc : Orc) (ev : GEvent) (hev : ev.ok3 ts g) :
     (gstep g c orc ev).1.norm ∈ R := by
   have hnorm := closed_norm hcl hc
   -- reads and hasattr share the state component
@@ -358,6 +360,7 @@ theorem gstep_closed {g : GroupCfg} (hget : g.getter = [.clear, .load, .get])
 end PtLazy
 
 namespace PtLazy
+variable {ts : List Nat}
 
 /-! ## a read only looks at the class of each object and at which of the group's write effects
 select it: a finite alphabet of chains -/
@@ -556,6 +559,7 @@ theorem norm_mem_chainsOf (g : GroupCfg) {chain : List Node} (h : ChainOK chain)
 end PtLazy
 
 namespace PtLazy
+variable {ts : List Nat}
 
 /-! ## what a read serves, in closed form; the decidable conditions on a group -/
 
@@ -564,7 +568,7 @@ def readVal (g : GroupCfg) (c : GS) (t : Nat) (chain : List Node) (p : Nat) (orc
   (getSpec g c (forceAt g forceFuel c).1 t chain 0 p orc).2
 
 theorem getAttr_readVal {g : GroupCfg} (hget : g.getter = [.clear, .load, .get]) {R : List GS}
-    (hcl : closed g R = true) {c : GS} (hc : c ∈ R) (t : Nat) (chain : List Node) (p : Nat) (orc : Orc) :
+    (hcl : closed ts g R = true) {c : GS} (hc : c ∈ R) (t : Nat) (chain : List Node) (p : Nat) (orc : Orc) :
     (getAttr g fuel0 c t chain 0 p orc).2 = readVal g c t chain p orc := by
   unfold readVal
   cases hp : c.noPending with
@@ -609,9 +613,9 @@ def noShared (g : GroupCfg) : Bool :=
     | _ => true
 
 /-- the decidable safety condition on one registration group -/
-def SafeG (g : GroupCfg) : Bool :=
+def SafeG (ts : List Nat) (g : GroupCfg) : Bool :=
   decide (g.getter = [.clear, .load, .get]) && decide (g.setter = [.clear, .load, .set]) &&
-  closed g (reach g) && publicSame g (reach g) && noShared g
+  closed ts g (reach ts g) && publicSame g (reach ts g)
 
 theorem publicSame_at {g : GroupCfg} {R : List GS} (h : publicSame g R = true) {c : GS} (hc : c ∈ R)
     {chain : List Node} (hch : ChainOK chain) {p : Nat} (hp : p ∈ g.attrs) :
@@ -645,6 +649,7 @@ theorem sharedEff_false {g : GroupCfg} (h : noShared g = true) (i k : Nat) : g.s
 end PtLazy
 
 namespace PtLazy
+variable {ts : List Nat}
 
 /-! ## the whole machine -/
 
@@ -655,24 +660,24 @@ def LogOK (log : List LEntry) : Prop :=
     | .mark scope _ _ _ _ => ∃ t, scope = some t ∧ t ≠ 0
 
 /-- the decidable safety condition on a configuration -/
-def SafeCfg (cfg : Config) : Bool := cfg.groups.all SafeG
+def SafeCfg (ts : List Nat) (cfg : Config) : Bool := cfg.groups.all (SafeG ts)
 
-theorem safeCfg_at {cfg : Config} (h : SafeCfg cfg = true) {gi : Nat} {g : GroupCfg}
+theorem safeCfg_at {cfg : Config} (h : SafeCfg ts cfg = true) {gi : Nat} {g : GroupCfg}
     (hg : cfg.groups[gi]? = some g) :
     g.getter = [.clear, .load, .get] ∧ g.setter = [.clear, .load, .set] ∧
-    closed g (reach g) = true ∧ publicSame g (reach g) = true ∧ noShared g = true := by
+    closed ts g (reach ts g) = true ∧ publicSame g (reach ts g) = true := by
   unfold SafeCfg at h
   have := List.all_eq_true.mp h g (List.mem_of_getElem? hg)
   unfold SafeG at this
   simp only [Bool.and_eq_true, decide_eq_true_eq] at this
-  exact ⟨this.1.1.1.1, this.1.1.1.2, this.1.1.2, this.1.2, this.2⟩
+  exact ⟨this.1.1.1, this.1.1.2, this.1.2, this.2⟩
 
-structure GInv (cfg : Config) (s : State) : Prop where
+structure GInv (ts : List Nat) (cfg : Config) (s : State) : Prop where
   len : s.gs.length = cfg.groups.length
-  inR : ∀ (gi : Nat) (g : GroupCfg) (c : GS), cfg.groups[gi]? = some g → s.gs[gi]? = some c → c ∈ reach g
+  inR : ∀ (gi : Nat) (g : GroupCfg) (c : GS), cfg.groups[gi]? = some g → s.gs[gi]? = some c → c ∈ reach ts g
   log : LogOK s.log
 
-theorem ginv_init {cfg : Config} (h : SafeCfg cfg = true) : GInv cfg cfg.init := by
+theorem ginv_init {cfg : Config} (h : SafeCfg ts cfg = true) : GInv ts cfg cfg.init := by
   refine ⟨by simp [Config.init], ?_, ?_⟩
   · intro gi g c hg hc
     simp only [Config.init, List.getElem?_map, hg, Option.map_some, Option.some.injEq] at hc
@@ -703,10 +708,10 @@ theorem LogOK.subset {log log' : List LEntry} (h : LogOK log) (hs : ∀ e ∈ lo
   fun e he => h e (hs e he)
 
 /-- one group event keeps the invariant -/
-theorem stepG_inv {cfg : Config} (hsafe : SafeCfg cfg = true) {s : State} (hinv : GInv cfg s)
+theorem stepG_inv {cfg : Config} (hsafe : SafeCfg ts cfg = true) {s : State} (hinv : GInv ts cfg s)
     (gi : Nat) (orc : Orc) (ev : GEvent)
-    (hev : ∀ g, cfg.groups[gi]? = some g → ev.ok3 g) :
-    GInv cfg (stepG cfg s gi orc ev).1 ∧ ∀ e ∈ (stepG cfg s gi orc ev).1.log, e ∈ s.log := by
+    (hev : ∀ g, cfg.groups[gi]? = some g → ev.ok3 ts g) :
+    GInv ts cfg (stepG cfg s gi orc ev).1 ∧ ∀ e ∈ (stepG cfg s gi orc ev).1.log, e ∈ s.log := by
   unfold stepG
   cases hg : cfg.groups[gi]? with
   | none => simp only; exact ⟨hinv, fun _ h => h⟩
@@ -736,31 +741,32 @@ theorem stepG_inv {cfg : Config} (hsafe : SafeCfg cfg = true) {s : State} (hinv 
 end PtLazy
 
 namespace PtLazy
+variable {ts : List Nat}
 
 /-- events the theorems range over: the public table and up to two private tables; assignment and
     in-place mutation only on private tables; and no in-place mutation of a class-level default
     object (finding D19: the `Neutron()` placeholder is shared by all tables) -/
-def evOK (cfg : Config) (s : State) : Event → Prop
-  | .read t _ _ => t ∈ tables3
-  | .has t _ _ => t ∈ tables3
-  | .init _ t => t ∈ tables3
+def evOK (ts : List Nat) (cfg : Config) (s : State) : Event → Prop
+  | .read t _ _ => t ∈ ts
+  | .has t _ _ => t ∈ ts
+  | .init _ t => t ∈ ts
   | .importMod _ => True
-  | .assign t _ _ _ => t ∈ tables3 ∧ t ≠ 0
-  | .mutate t chain p _ => t ∈ tables3 ∧ t ≠ 0 ∧
+  | .assign t _ _ _ => t ∈ ts ∧ t ≠ 0
+  | .mutate t chain p _ => t ∈ ts ∧ t ≠ 0 ∧
       ∀ gi, cfg.groupOf p = some gi → ∀ i v t' m,
         (stepG cfg s gi (orcOf s.log t chain p) (.read t chain p)).2 ≠ .val (.dflt i v t' m)
 
-def runOK (cfg : Config) : State → List Event → Prop
+def runOK (ts : List Nat) (cfg : Config) : State → List Event → Prop
   | _, [] => True
-  | s, e :: es => evOK cfg s e ∧ runOK cfg (step cfg s e).1 es
+  | s, e :: es => evOK ts cfg s e ∧ runOK ts cfg (step cfg s e).1 es
 
-theorem ginv_of_gs_log {cfg : Config} {s s' : State} (h : GInv cfg s) (hgs : s'.gs = s.gs)
-    (hlog : LogOK s'.log) : GInv cfg s' :=
+theorem ginv_of_gs_log {cfg : Config} {s s' : State} (h : GInv ts cfg s) (hgs : s'.gs = s.gs)
+    (hlog : LogOK s'.log) : GInv ts cfg s' :=
   ⟨by rw [hgs]; exact h.len, by rw [hgs]; exact h.inR, hlog⟩
 
-theorem stepInit_inv {cfg : Config} (hsafe : SafeCfg cfg = true) (m t : Nat) (ht : t ∈ tables3) :
-    ∀ (l : List Nat) (s : State) (o : Out), GInv cfg s →
-      GInv cfg (l.foldl (fun (acc : State × Out) gi =>
+theorem stepInit_inv {cfg : Config} (hsafe : SafeCfg ts cfg = true) (m t : Nat) (ht : t ∈ ts) :
+    ∀ (l : List Nat) (s : State) (o : Out), GInv ts cfg s →
+      GInv ts cfg (l.foldl (fun (acc : State × Out) gi =>
         match cfg.groups[gi]? with
         | some g =>
           if (g.effsOf m).isSome then
@@ -795,8 +801,16 @@ theorem stepInit_inv {cfg : Config} (hsafe : SafeCfg cfg = true) (m t : Nat) (ht
           exact ⟨mi.2, by rw [← hi]; exact hmem⟩
       · exact ih s o h
 
-theorem ginv_step {cfg : Config} (hsafe : SafeCfg cfg = true) {s : State} (hinv : GInv cfg s)
-    (e : Event) (hev : evOK cfg s e) : GInv cfg (step cfg s e).1 := by
+def Event.isMutate : Event → Bool
+  | .mutate _ _ _ _ => true
+  | _ => false
+
+/-- no loader of the configuration stores a module-level mutable object by reference -/
+def NoSharedCfg (cfg : Config) : Prop := ∀ g ∈ cfg.groups, noShared g = true
+
+theorem ginv_step {cfg : Config} (hsafe : SafeCfg ts cfg = true) {s : State} (hinv : GInv ts cfg s)
+    (e : Event) (hev : evOK ts cfg s e) (hsh : e.isMutate = true → NoSharedCfg cfg) :
+    GInv ts cfg (step cfg s e).1 := by
   cases e with
   | read t chain p =>
     simp only [step]
@@ -816,8 +830,8 @@ theorem ginv_step {cfg : Config} (hsafe : SafeCfg cfg = true) {s : State} (hinv 
     split
     · next reads _ =>
       simp only
-      have : ∀ (l : List (Cls × Nat)) (st : State), GInv cfg st →
-          GInv cfg (l.foldl (fun st (cp : Cls × Nat) =>
+      have : ∀ (l : List (Cls × Nat)) (st : State), GInv ts cfg st →
+          GInv ts cfg (l.foldl (fun st (cp : Cls × Nat) =>
             match cfg.groupOf cp.2 with
             | some gi => (stepG cfg st gi noUser (.read 0 (bareChain cp.1) cp.2)).1
             | none => st) st) := by
@@ -864,7 +878,7 @@ theorem ginv_step {cfg : Config} (hsafe : SafeCfg cfg = true) {s : State} (hinv 
       obtain ⟨s1, o⟩ := r
       simp only at hst hnd ⊢
       have hmark : ∀ (sc : Nat) a src, sc ≠ 0 →
-          GInv cfg { s1 with log := addMark s1.log (.mark (some sc) a p src n) } := by
+          GInv ts cfg { s1 with log := addMark s1.log (.mark (some sc) a p src n) } := by
         intro sc a src hsc
         refine ginv_of_gs_log hst.1 rfl ?_
         intro e he
@@ -877,7 +891,7 @@ theorem ginv_step {cfg : Config} (hsafe : SafeCfg cfg = true) {s : State} (hinv 
       cases hg : cfg.groups[gi]? with
       | none => simp only; exact hst.1
       | some g =>
-        have hns := (safeCfg_at hsafe hg).2.2.2.2
+        have hns := hsh rfl g (List.mem_of_getElem? hg)
         cases o with
         | val v =>
           cases v with
@@ -890,14 +904,18 @@ theorem ginv_step {cfg : Config} (hsafe : SafeCfg cfg = true) {s : State} (hinv 
         | attrError => simp only; exact hst.1
         | _ => simp only; exact hst.1
 
-theorem ginv_run {cfg : Config} (hsafe : SafeCfg cfg = true) :
-    ∀ (h : List Event) (s : State), GInv cfg s → runOK cfg s h → GInv cfg (run cfg s h)
-  | [], _, hi, _ => hi
-  | e :: es, s, hi, hr => ginv_run hsafe es _ (ginv_step hsafe hi e hr.1) hr.2
+theorem ginv_run {cfg : Config} (hsafe : SafeCfg ts cfg = true) :
+    ∀ (h : List Event) (s : State), GInv ts cfg s → runOK ts cfg s h →
+      (∀ e ∈ h, e.isMutate = true → NoSharedCfg cfg) → GInv ts cfg (run cfg s h)
+  | [], _, hi, _, _ => hi
+  | e :: es, s, hi, hr, hsh =>
+    ginv_run hsafe es _ (ginv_step hsafe hi e hr.1 (hsh e (List.mem_cons_self ..))) hr.2
+      (fun e' he' => hsh e' (List.mem_cons_of_mem _ he'))
 
 end PtLazy
 
 namespace PtLazy
+variable {ts : List Nat}
 
 /-! ## what the public table serves never depends on the history -/
 
@@ -953,7 +971,7 @@ def Res.toOut' : Res Val → Out := Res.toOut
 
 /-- on the public table, with only private-table entries in the log, what is served is a function
     of the (table-independent) value alone -/
-theorem serve_public {g : GroupCfg} (hns : noShared g = true) {log log' : List LEntry}
+theorem serve_public {g : GroupCfg} {log log' : List LEntry}
     (h : LogOK log) (h' : LogOK log') (chain : List Node) (p : Nat) {r r' : Res Val}
     (hr : r.strip = r'.strip) :
     serve g log 0 chain p r.toOut = serve g log' 0 chain p r'.toOut := by
@@ -965,8 +983,12 @@ theorem serve_public {g : GroupCfg} (hns : noShared g = true) {log log' : List L
       cases v with
       | data i k m =>
         cases v' <;> simp only [Val.strip] at hr <;> try cases hr
-        simp only [Res.toOut, serve, sharedEff_false hns, Bool.false_eq_true, ↓reduceIte]
-        rw [marksOf_public h _ (.inr rfl), marksOf_public h' _ (.inr rfl)]
+        simp only [Res.toOut, serve]
+        cases g.sharedEff i k
+        · simp only [Bool.false_eq_true, ↓reduceIte]
+          rw [marksOf_public h _ (.inr rfl), marksOf_public h' _ (.inr rfl)]
+        · simp only [↓reduceIte]
+          rw [marksOf_public h _ (.inl rfl), marksOf_public h' _ (.inl rfl)]
       | user pos =>
         cases v' <;> simp only [Val.strip] at hr <;> try cases hr
         simp only [Res.toOut, serve]
@@ -989,9 +1011,10 @@ theorem serve_public {g : GroupCfg} (hns : noShared g = true) {log log' : List L
 end PtLazy
 
 namespace PtLazy
+variable {ts : List Nat}
 
 theorem gstep_read_out {g : GroupCfg} (hget : g.getter = [.clear, .load, .get])
-    (hcl : closed g (reach g) = true) {c : GS} (hc : c ∈ reach g) (t : Nat) (chain : List Node)
+    (hcl : closed ts g (reach ts g) = true) {c : GS} (hc : c ∈ reach ts g) (t : Nat) (chain : List Node)
     (p : Nat) (orc : Orc) :
     (gstep g c orc (.read t chain p)).2 = (readVal g c t chain p orc).toOut := by
   simp only [gstep]
@@ -1005,7 +1028,7 @@ def hasOut : Res Val → Out
   | .outOfFuel => .outOfFuel
 
 theorem gstep_has_out {g : GroupCfg} (hget : g.getter = [.clear, .load, .get])
-    (hcl : closed g (reach g) = true) {c : GS} (hc : c ∈ reach g) (t : Nat) (chain : List Node)
+    (hcl : closed ts g (reach ts g) = true) {c : GS} (hc : c ∈ reach ts g) (t : Nat) (chain : List Node)
     (p : Nat) (orc : Orc) :
     (gstep g c orc (.has t chain p)).2 = hasOut (readVal g c t chain p orc) := by
   have := getAttr_readVal hget hcl hc t chain p orc
@@ -1025,7 +1048,7 @@ theorem stepG_some {cfg : Config} {s : State} {gi : Nat} {g : GroupCfg} {c : GS}
 
 /-- **served = canon**: in every reachable state a read of the public table – through any atom,
     by any route – serves what a fresh interpreter serves -/
-theorem public_read_canon {cfg : Config} (hsafe : SafeCfg cfg = true) {s : State} (hinv : GInv cfg s)
+theorem public_read_canon {cfg : Config} (hsafe : SafeCfg ts cfg = true) {s : State} (hinv : GInv ts cfg s)
     (chain : List Node) (hch : ChainOK chain) (p : Nat) :
     (step cfg s (.read 0 chain p)).2 = canon cfg (.read 0 chain p) := by
   unfold canon
@@ -1053,12 +1076,12 @@ theorem public_read_canon {cfg : Config} (hsafe : SafeCfg cfg = true) {s : State
     obtain ⟨ho0, hl0⟩ := stepG_some hg hc0 noUser (.read 0 chain p)
     rw [ho, ho0]
     rw [gstep_read_out hs.1 hs.2.2.1 hcR, gstep_read_out hs.1 hs.2.2.1 hc0R]
-    apply serve_public hs.2.2.2.2
+    apply serve_public
     · rw [hl]; exact hinv.log.subset (applyTrace_subset g _ _)
     · rw [hl0]; exact hinit.log.subset (applyTrace_subset g _ _)
     · rw [hc0eq]
-      exact (publicSame_at hs.2.2.2.1 hcR hch hp).trans
-        (publicSame_at hs.2.2.2.1 (closed_init hs.2.2.1) hch hp).symm
+      exact (publicSame_at hs.2.2.2 hcR hch hp).trans
+        (publicSame_at hs.2.2.2 (closed_init hs.2.2.1) hch hp).symm
 
 theorem hasOut_strip {r r' : Res Val} (h : r.strip = r'.strip) : hasOut r = hasOut r' := by
   cases r <;> cases r' <;> simp [Res.strip] at h <;> rfl
@@ -1068,7 +1091,7 @@ theorem serve_hasOut (g : GroupCfg) (log log' : List LEntry) (t : Nat) (chain : 
   cases r <;> rfl
 
 /-- the same for `hasattr` -/
-theorem public_has_canon {cfg : Config} (hsafe : SafeCfg cfg = true) {s : State} (hinv : GInv cfg s)
+theorem public_has_canon {cfg : Config} (hsafe : SafeCfg ts cfg = true) {s : State} (hinv : GInv ts cfg s)
     (chain : List Node) (hch : ChainOK chain) (p : Nat) :
     (step cfg s (.has 0 chain p)).2 = canon cfg (.has 0 chain p) := by
   unfold canon
@@ -1096,14 +1119,15 @@ theorem public_has_canon {cfg : Config} (hsafe : SafeCfg cfg = true) {s : State}
     obtain ⟨ho0, _⟩ := stepG_some hg hc0 noUser (.has 0 chain p)
     rw [ho, ho0]
     rw [gstep_has_out hs.1 hs.2.2.1 hcR, gstep_has_out hs.1 hs.2.2.1 hc0R]
-    have := (publicSame_at hs.2.2.2.1 hcR hch hp).trans
-        (publicSame_at hs.2.2.2.1 (closed_init hs.2.2.1) hch hp).symm
+    have := (publicSame_at hs.2.2.2 hcR hch hp).trans
+        (publicSame_at hs.2.2.2 (closed_init hs.2.2.1) hch hp).symm
     rw [hc0eq, hasOut_strip this]
     exact serve_hasOut g _ _ 0 chain p _
 
 end PtLazy
 
 namespace PtLazy
+variable {ts : List Nat}
 
 /-! ## a freshly initialised private table serves what the public table serves -/
 
@@ -1179,7 +1203,7 @@ theorem marksOf_clean {log : List LEntry} {t : Nat} (h : TableClean t log) (hl :
 
 /-- what a clean private table serves is a function of the value alone, and equals what the
     public table serves for the same value -/
-theorem serve_clean {g : GroupCfg} (hns : noShared g = true) {log log' : List LEntry} {t : Nat}
+theorem serve_clean {g : GroupCfg} {log log' : List LEntry} {t : Nat}
     (hc : TableClean t log) (h : LogOK log) (h' : LogOK log') (chain : List Node) (p : Nat)
     {r r' : Res Val} (hr : r.strip = r'.strip) :
     serve g log t chain p r.toOut = serve g log' 0 chain p r'.toOut := by
@@ -1191,8 +1215,12 @@ theorem serve_clean {g : GroupCfg} (hns : noShared g = true) {log log' : List LE
       cases v with
       | data i k m =>
         cases v' <;> simp only [Val.strip] at hr <;> try cases hr
-        simp only [Res.toOut, serve, sharedEff_false hns, Bool.false_eq_true, ↓reduceIte]
-        rw [marksOf_clean hc h _ (.inr rfl), marksOf_public h' _ (.inr rfl)]
+        simp only [Res.toOut, serve]
+        cases g.sharedEff i k
+        · simp only [Bool.false_eq_true, ↓reduceIte]
+          rw [marksOf_clean hc h _ (.inr rfl), marksOf_public h' _ (.inr rfl)]
+        · simp only [↓reduceIte]
+          rw [marksOf_clean hc h _ (.inl rfl), marksOf_public h' _ (.inl rfl)]
       | user pos =>
         cases v' <;> simp only [Val.strip] at hr <;> try cases hr
         simp only [Res.toOut, serve]
@@ -1215,12 +1243,12 @@ theorem serve_clean {g : GroupCfg} (hns : noShared g = true) {log log' : List LE
 /-- **freshly initialised = public**: in a reachable state whose group control state is "the
     loader's init has just run on private table t", and whose log has nothing of t, a read on t
     serves what a fresh interpreter serves on the public table -/
-theorem private_read_canon {cfg : Config} (hsafe : SafeCfg cfg = true)
-    (hpriv : ∀ g ∈ cfg.groups, privateSame g (reach g) = true)
-    {s : State} (hinv : GInv cfg s) {t : Nat} (ht : t ∈ privTables) (hclean : TableClean t s.log)
+theorem private_read_canon {cfg : Config} (hsafe : SafeCfg ts cfg = true)
+    (hpriv : ∀ g ∈ cfg.groups, privateSame g (reach ts g) = true)
+    {s : State} (hinv : GInv ts cfg s) {t : Nat} (ht : t ∈ privTables) (hclean : TableClean t s.log)
     (chain : List Node) (hch : ChainOK chain) (p : Nat)
     (hfresh : ∀ gi g, cfg.groupOf p = some gi → cfg.groups[gi]? = some g →
-      ∃ c ∈ reach g, s.gs[gi]? = some (afterInit g c t)) :
+      ∃ c ∈ reach ts g, s.gs[gi]? = some (afterInit g c t)) :
     (step cfg s (.read t chain p)).2 = canon cfg (.read 0 chain p) := by
   unfold canon
   simp only [step]
@@ -1245,7 +1273,7 @@ theorem private_read_canon {cfg : Config} (hsafe : SafeCfg cfg = true)
     obtain ⟨ho0, hl0⟩ := stepG_some hg hc0 noUser (.read 0 chain p)
     rw [ho, ho0]
     rw [gstep_read_out hs.1 hs.2.2.1 hc'R, gstep_read_out hs.1 hs.2.2.1 hc0R]
-    apply serve_clean hs.2.2.2.2
+    apply serve_clean
     · rw [hl]; exact fun e he => hclean e (applyTrace_subset g _ _ e he)
     · rw [hl]; exact hinv.log.subset (applyTrace_subset g _ _)
     · rw [hl0]; exact hinit.log.subset (applyTrace_subset g _ _)
@@ -1255,6 +1283,7 @@ theorem private_read_canon {cfg : Config} (hsafe : SafeCfg cfg = true)
 end PtLazy
 
 namespace PtLazy
+variable {ts : List Nat}
 
 /-! ## explicit `init(m, t)`: what it does to one group's control state and to the log -/
 
@@ -1363,25 +1392,19 @@ theorem stepInit_log (cfg : Config) (m t : Nat) :
 end PtLazy
 
 namespace PtLazy
+variable {ts : List Nat}
 
 /-- **freshly initialised = public**, as events: after any reachable state, run the loader's init
     of the attribute's group on a private table that carries no user values; a read on that
     table then serves what a fresh interpreter serves on the public table -/
-theorem private_fresh_canon {cfg : Config} (hsafe : SafeCfg cfg = true)
-    (hpriv : ∀ g ∈ cfg.groups, privateSame g (reach g) = true)
-    {s : State} (hinv : GInv cfg s) {t : Nat} (ht : t ∈ privTables) (hclean : TableClean t s.log)
+theorem private_fresh_canon {cfg : Config} (hsafe : SafeCfg ts cfg = true)
+    (hpriv : ∀ g ∈ cfg.groups, privateSame g (reach ts g) = true)
+    {s : State} (hinv : GInv ts cfg s) {t : Nat} (ht : t ∈ privTables) (hclean : TableClean t s.log)
     (chain : List Node) (hch : ChainOK chain) (p gi : Nat) (g : GroupCfg)
     (hgi : cfg.groupOf p = some gi) (hg : cfg.groups[gi]? = some g)
-    (hm : (g.effsOf g.loader).isSome = true) :
+    (hm : (g.effsOf g.loader).isSome = true) (ht3 : t ∈ ts) :
     (step cfg (step cfg s (.init g.loader t)).1 (.read t chain p)).2 = canon cfg (.read 0 chain p) := by
-  have ht3 : t ∈ tables3 := by
-    unfold privTables at ht; unfold tables3
-    rcases List.mem_cons.mp ht with rfl | h
-    · simp
-    · rcases List.mem_cons.mp h with rfl | h'
-      · simp
-      · cases h'
-  have hinv' := ginv_step hsafe hinv (.init g.loader t) ht3
+  have hinv' := ginv_step hsafe hinv (.init g.loader t) ht3 (fun h => by cases h)
   have hstate : (step cfg s (.init g.loader t)).1 = (stepInit cfg s g.loader t).1 := by simp [step]
   have hlt : gi < s.gs.length := by rw [hinv.len]; exact (List.getElem?_eq_some_iff.mp hg).1
   have hc : s.gs[gi]? = some s.gs[gi] := List.getElem?_eq_getElem hlt
@@ -1444,8 +1467,8 @@ theorem serve_marksLocal {g : GroupCfg} (hns : noShared g = true) {log : List LE
       intro n hn; exact ⟨_, mem_marksOf hn⟩
   | _ => trivial
 
-theorem read_marksLocal {cfg : Config} (hsafe : SafeCfg cfg = true) {s : State} (hinv : GInv cfg s)
-    (t : Nat) (chain : List Node) (p : Nat) :
+theorem read_marksLocal {cfg : Config} (hsafe : SafeCfg ts cfg = true) (hsh : NoSharedCfg cfg)
+    {s : State} (hinv : GInv ts cfg s) (t : Nat) (chain : List Node) (p : Nat) :
     marksLocal t p (step cfg s (.read t chain p)).1.log (step cfg s (.read t chain p)).2 := by
   simp only [step]
   cases hgi : cfg.groupOf p with
@@ -1453,14 +1476,13 @@ theorem read_marksLocal {cfg : Config} (hsafe : SafeCfg cfg = true) {s : State} 
   | some gi =>
     obtain ⟨g, hg, _⟩ := groupOf_some hgi
     simp only [hg]
-    have hs := safeCfg_at hsafe hg
     have h1 := stepG_inv hsafe hinv gi (orcOf s.log t chain p) (.read t chain p) (fun _ _ => trivial)
-    exact serve_marksLocal hs.2.2.2.2 h1.1.log t chain p _
+    exact serve_marksLocal (hsh g (List.mem_of_getElem? hg)) h1.1.log t chain p _
 
 /-- the log after an (admissible) in-place mutation on table t: old entries, plus at most one mark
     owned by table t -/
-theorem mutate_log {cfg : Config} (hsafe : SafeCfg cfg = true) {s : State}
-    (t : Nat) (chain : List Node) (p n : Nat) (hev : evOK cfg s (.mutate t chain p n)) :
+theorem mutate_log {cfg : Config} (hsh : NoSharedCfg cfg) {s : State}
+    (t : Nat) (chain : List Node) (p n : Nat) (hev : evOK ts cfg s (.mutate t chain p n)) :
     ∀ e ∈ (step cfg s (.mutate t chain p n)).1.log,
       e ∈ s.log ∨ ∃ a src, e = .mark (some t) a p src n := by
   simp only [step]
@@ -1485,7 +1507,7 @@ theorem mutate_log {cfg : Config} (hsafe : SafeCfg cfg = true) {s : State}
     cases hg : cfg.groups[gi]? with
     | none => intro e he; exact .inl (hsub e he)
     | some g =>
-      have hns := (safeCfg_at hsafe hg).2.2.2.2
+      have hns := hsh g (List.mem_of_getElem? hg)
       cases o with
       | val v =>
         cases v with
@@ -1500,6 +1522,7 @@ theorem mutate_log {cfg : Config} (hsafe : SafeCfg cfg = true) {s : State}
 end PtLazy
 
 namespace PtLazy
+variable {ts : List Nat}
 
 theorem read_log_subset (cfg : Config) (s : State) (t : Nat) (chain : List Node) (p : Nat) :
     ∀ e ∈ (step cfg s (.read t chain p)).1.log, e ∈ s.log := by
@@ -1517,28 +1540,29 @@ def Served.marks : Served → List Nat
 
 /-- the full isolation condition: `SafeCfg` plus "a freshly initialised private table serves the
     public values" and "every registered loader is one of the group's inits" -/
-def SafeIso (cfg : Config) : Bool :=
-  SafeCfg cfg && cfg.groups.all fun g => privateSame g (reach g) && (g.effsOf g.loader).isSome
+def SafeIso (ts : List Nat) (cfg : Config) : Bool :=
+  SafeCfg ts cfg && cfg.groups.all fun g =>
+    privateSame g (reach ts g) && (g.effsOf g.loader).isSome && noShared g
 
-theorem safeIso_at {cfg : Config} (h : SafeIso cfg = true) :
-    SafeCfg cfg = true ∧ (∀ g ∈ cfg.groups, privateSame g (reach g) = true) ∧
-    ∀ g ∈ cfg.groups, (g.effsOf g.loader).isSome = true := by
+theorem safeIso_at {cfg : Config} (h : SafeIso ts cfg = true) :
+    SafeCfg ts cfg = true ∧ (∀ g ∈ cfg.groups, privateSame g (reach ts g) = true) ∧
+    (∀ g ∈ cfg.groups, (g.effsOf g.loader).isSome = true) ∧ NoSharedCfg cfg := by
   unfold SafeIso at h
   simp only [Bool.and_eq_true, List.all_eq_true] at h
-  exact ⟨h.1, fun g hg => (h.2 g hg).1, fun g hg => (h.2 g hg).2⟩
+  exact ⟨h.1, fun g hg => (h.2 g hg).1.1, fun g hg => (h.2 g hg).1.2, fun g hg => (h.2 g hg).2⟩
 
 /-- a fresh in-place mutation mark made through table t is never seen through another table -/
-theorem mark_not_seen_elsewhere {cfg : Config} (hsafe : SafeCfg cfg = true) {s : State}
-    (hinv : GInv cfg s) (t : Nat) (chain : List Node) (p n : Nat)
-    (hev : evOK cfg s (.mutate t chain p n))
+theorem mark_not_seen_elsewhere {cfg : Config} (hsafe : SafeCfg ts cfg = true) (hsh : NoSharedCfg cfg)
+    {s : State} (hinv : GInv ts cfg s) (t : Nat) (chain : List Node) (p n : Nat)
+    (hev : evOK ts cfg s (.mutate t chain p n))
     (hfresh : ∀ e ∈ s.log, ∀ sc a p' src, e ≠ LEntry.mark sc a p' src n)
     (t' : Nat) (ht' : t' ≠ t) (chain' : List Node) (p' : Nat) :
     n ∉ (step cfg (step cfg s (.mutate t chain p n)).1 (.read t' chain' p')).2.marks := by
   intro hn
-  have hinv1 := ginv_step hsafe hinv _ hev
-  have hloc := read_marksLocal hsafe hinv1 t' chain' p'
+  have hinv1 := ginv_step hsafe hinv _ hev (fun _ => hsh)
+  have hloc := read_marksLocal hsafe hsh hinv1 t' chain' p'
   have hsub := read_log_subset cfg (step cfg s (.mutate t chain p n)).1 t' chain' p'
-  have hml := mutate_log hsafe t chain p n hev
+  have hml := mutate_log hsh t chain p n hev
   generalize (step cfg (step cfg s (.mutate t chain p n)).1 (.read t' chain' p')).2 = sv at hn hloc
   have hent : ∃ a src, LEntry.mark (some t') a p' src n ∈
       (step cfg (step cfg s (.mutate t chain p n)).1 (.read t' chain' p')).1.log := by
@@ -1555,16 +1579,17 @@ theorem mark_not_seen_elsewhere {cfg : Config} (hsafe : SafeCfg cfg = true) {s :
 end PtLazy
 
 namespace PtLazy
+variable {ts : List Nat}
 
 /-! ## executable versions of the hypotheses (for concrete examples) -/
 
-def evOKb (cfg : Config) (s : State) : Event → Bool
-  | .read t _ _ => tables3.contains t
-  | .has t _ _ => tables3.contains t
-  | .init _ t => tables3.contains t
+def evOKb (ts : List Nat) (cfg : Config) (s : State) : Event → Bool
+  | .read t _ _ => ts.contains t
+  | .has t _ _ => ts.contains t
+  | .init _ t => ts.contains t
   | .importMod _ => true
-  | .assign t _ _ _ => tables3.contains t && t != 0
-  | .mutate t chain p _ => tables3.contains t && t != 0 &&
+  | .assign t _ _ _ => ts.contains t && t != 0
+  | .mutate t chain p _ => ts.contains t && t != 0 &&
       match cfg.groupOf p with
       | none => true
       | some gi =>
@@ -1572,7 +1597,7 @@ def evOKb (cfg : Config) (s : State) : Event → Bool
         | .val (.dflt _ _ _ _) => false
         | _ => true
 
-theorem evOK_of_b {cfg : Config} {s : State} {e : Event} (h : evOKb cfg s e = true) : evOK cfg s e := by
+theorem evOK_of_b {cfg : Config} {s : State} {e : Event} (h : evOKb ts cfg s e = true) : evOK ts cfg s e := by
   cases e with
   | read t c p => exact List.contains_iff_mem.mp h
   | has t c p => exact List.contains_iff_mem.mp h
@@ -1590,11 +1615,11 @@ theorem evOK_of_b {cfg : Config} {s : State} {e : Event} (h : evOKb cfg s e = tr
     simp only [hcontra] at h2
     cases h2
 
-def runOKb (cfg : Config) : State → List Event → Bool
+def runOKb (ts : List Nat) (cfg : Config) : State → List Event → Bool
   | _, [] => true
-  | s, e :: es => evOKb cfg s e && runOKb cfg (step cfg s e).1 es
+  | s, e :: es => evOKb ts cfg s e && runOKb ts cfg (step cfg s e).1 es
 
-theorem runOK_of_b {cfg : Config} : ∀ {h : List Event} {s : State}, runOKb cfg s h = true → runOK cfg s h
+theorem runOK_of_b {cfg : Config} : ∀ {h : List Event} {s : State}, runOKb ts cfg s h = true → runOK ts cfg s h
   | [], _, _ => trivial
   | e :: es, s, h => by
     simp only [runOKb, Bool.and_eq_true] at h
